@@ -36,7 +36,9 @@ META = {
              'switch between two commits; distinct by case (+ executed schedule)'),
     'assumptions': ['the subscriber handles notifications synchronously in the delivering thread',
                     'interleavings of writers are explored at the granularity of the instrumented locks',
-                    'the periodic send loop is run for exactly one iteration in the harness thread (its timer is replaced)'],
+                    'the periodic send loop is run for exactly one iteration in the harness thread (its timer is replaced)',
+                    'the removal of a single context state through the entity interface is not expected in any report (the '
+                    'library documents that it cannot be communicated)'],
 }
 
 S12 = 'http://www.w3.org/2003/05/soap-envelope'
@@ -224,7 +226,9 @@ def judge_reports(entries, snaps, v0, v1, data_model, where, label):  # noqa: C9
         changed = changed_keys(prev, snap)
         # the states of a deleted descriptor disappear with it: the Del part for the descriptor covers them
         implied = {(k, h) for k, h in changed if k == 's' and h not in snap['s'] and h not in snap['d']}
-        implied |= {(k, h) for k, h in changed if k == 'c' and h not in snap['c'] and prev['cd'].get(h) not in snap['d']}
+        # ... and a context state that was removed on its own (entity interface) 'cannot be communicated via notification'
+        # (comment in ContextStateTransaction.write_entity; BICEPS has no report for it)
+        implied |= {(k, h) for k, h in changed if k == 'c' and h not in snap['c']}
         changed -= implied
         reported[v] -= implied
         missing = changed - reported[v]
@@ -527,9 +531,18 @@ def st_order_scenario(max_writers=3, max_tx=3):
     def for_fixture(fx):
         inv = MP.inventory(fx)
         op = MP.st_op(inv, descriptor_ops=True, context_ops=True, multi=False, kw_hold=False, aborts=False)
+        # waveforms are the reports with the highest rate: every third scenario has a writer that only sends them
+        rt = MP.st_op(inv, kinds=('rt',), descriptor_ops=False, context_ops=False, multi=False, kw_hold=False,
+                      aborts=False).filter(lambda o: o[0] == 'state')
+        any_writer = st.lists(op, min_size=1, max_size=max_tx)
+        writers = st.one_of(
+            st.lists(any_writer, min_size=2, max_size=max_writers),
+            st.lists(any_writer, min_size=2, max_size=max_writers),
+            st.tuples(st.lists(rt, min_size=1, max_size=max_tx), st.lists(any_writer, min_size=1, max_size=max_writers - 1)).map(
+                lambda t: [t[0], *t[1]]))
         return st.fixed_dictionaries({
             'fixture': st.just(fx), 'async': st.booleans(), 'subscribers': st.sampled_from([1, 1, 2]),
-            'writers': st.lists(st.lists(op, min_size=1, max_size=max_tx), min_size=2, max_size=max_writers)})
+            'writers': writers})
     return st.sampled_from(FIXTURES[:1]).flatmap(for_fixture)
 
 
